@@ -81,7 +81,9 @@ TRUSTED = [
     "ToyNoise with the 65535-byte per-message limit of Noise (LimitedNoise)",
 ]
 RULE = ("schedules of open/write/close on <=3 subchannels per direction (five subprotocol names, two of them valid but "
-        "not NFC: decomposed accent, Hangul jamo + ANGSTROM SIGN + ligature, the identical str on both sides), the "
+        "not NFC: decomposed accent, Hangul jamo + ANGSTROM SIGN + ligature, the identical str on both sides; one whose "
+        "receiving protocols pause their subchannel from inside dataReceived and resume late or never, with "
+        "DATA…DATA,CLOSE bursts behind the record that triggers the pause), the "
         "connection dying between an end's KCM and its Connector's accept turn (leader and follower, first and later "
         "generations; exactly one eventual turn of the real EventualQueue, the loss one turn later), both sides writing on "
         "the same subchannel (the listening application answers through its protocol and closes peer-opened "
@@ -100,7 +102,8 @@ RULE = ("schedules of open/write/close on <=3 subchannels per direction (five su
 
 NFD = "cafe\u0301"                       # valid, but not NFC (decomposed accent)
 JAMO = "\u1112\u1161\u11ab\u212b\ufb01"     # Hangul jamo + ANGSTROM SIGN (NFC rewrites both) + a ligature (NFC keeps it)
-NAMES = ["a", "é", "g", NFD, JAMO]
+PAUSER = "p"           # its listening protocols pause their transport from inside dataReceived (see PHP)
+NAMES = ["a", "é", "g", NFD, JAMO, PAUSER]
 GREETER = "g"          # listened for by A only, from the start; its protocols write from connectionMade
 
 
@@ -144,6 +147,25 @@ class GHP(HP):
         t.write(g)          # (the harness' write hook records it as issued by this side)
 
 
+class PHP(HP):
+    """a slow consumer: after every chunk it is given it pauses its transport (the subchannel) from inside
+    dataReceived, and resumes when the schedule says so — or never.  Records that were already read from the socket
+    (the rest of a burst, a replay parked behind the KCM, a CLOSE) still reach it: pausing only stops the NEXT read of
+    the L2 connection."""
+
+    def dataReceived(self, d):
+        HP.dataReceived(self, d)
+        if not getattr(self, "paused", False):
+            self.paused = True
+            self.side.paused_protocols.append(self)
+            self.transport.pauseProducing()
+
+    def resume(self):
+        if getattr(self, "paused", False):
+            self.paused = False
+            self.transport.resumeProducing()
+
+
 class CP:
     """the protocol of a CONNECTING application: writes its greeting(s), and possibly closes, from inside
     connectionMade, i.e. while SubchannelConnectorEndpoint.connect() is still on the stack"""
@@ -184,6 +206,8 @@ class Factory:
         self.greeter = greeter
 
     def buildProtocol(self, addr):
+        if addr.subprotocol == PAUSER:
+            return PHP(self.side)
         return GHP(self.side) if self.greeter else HP(self.side)
 
     def doStart(self):  # pragma: no cover
@@ -377,6 +401,7 @@ class SideH:
         m.got_record = got_record
         self.listening = []
         self.protocols = {}     # scid -> the listening protocol built for a peer-opened subchannel
+        self.paused_protocols = []   # PHP instances that paused their transport and have not been resumed
         self.connected_scids = []   # scids this side's real connect() allocated, in order
         self.pclosed = set()    # peer-opened scids this side has sent CLOSE for
         ib = self.ib
@@ -786,6 +811,17 @@ def _run(case, kind):
                 s.eq.flush_sync()                # when_fired() answers through the eventual queue
                 if not result or not isinstance(result[0], CP):
                     raise TurnFailed(f"connect() did not finish: {result}")
+        elif k == "presume":
+            # the application of x is ready again: every protocol that paused its subchannel resumes it (no model line:
+            # neither pausing nor resuming a subchannel changes what is dispatched or shown at HEAD)
+            if not s.paused_protocols:
+                return False
+            tags.add("subchannel-resumed")
+
+            def f():
+                ps, s.paused_protocols[:] = list(s.paused_protocols), []
+                for pr in ps:
+                    pr.resume()
         elif k == "listen":
             name = op[2]
             if name in s.listening:
@@ -895,6 +931,10 @@ def _run(case, kind):
                     toks.pop(0)
                     lk.dcp[x].dataReceived(data + tok)
             res = show_wire(r)
+            if isinstance(r, (Data, Close)):
+                pr = s.protocols.get(r.scid)
+                if pr is not None and getattr(pr, "paused", False):
+                    tags.add("record-for-paused-subchannel:" + ("close" if isinstance(r, Close) else "data"))
             if isinstance(r, Ack):
                 if s.ob._queued_unsent and s.ob._queued_unsent[0].seqnum <= r.resp_seqnum:
                     tags.add("ack-retires-unsent")
@@ -1000,6 +1040,9 @@ def _run(case, kind):
                     break
             if dead[0] or viol or dropped[0] == before:
                 break
+        if not dead[0] and not viol:
+            for x in ("A", "B"):
+                do(["presume", x])               # whatever a paused subchannel still holds must come out now
         if dead[0]:
             viol.append(("exception", f"{dead[0]} raised while draining the final generation at `{lines[-1]}`"))
         elif not viol:
@@ -1016,7 +1059,7 @@ def _run(case, kind):
                         viol.append(("subchannel-callbacks-incomplete",
                                      f"with every listener registered and everything delivered{why}, the protocol of subchannel {scid} on {peer.name} saw {fmt(peer.app_log.get(scid, []))}, issued for it {fmt(want)}"))
                         break
-    nontrivial = bool(tags & {"loss-between-KCM-and-accept:leader", "loss-between-KCM-and-accept:follower", "first-record-is-an-answer", "close-while-peer-has-unacked-data", "replay", "duplicate-dropped", "inflight-lost:data", "inflight-lost:ack",
+    nontrivial = bool(tags & {"record-for-paused-subchannel:close", "record-for-paused-subchannel:data", "loss-between-KCM-and-accept:leader", "loss-between-KCM-and-accept:follower", "first-record-is-an-answer", "close-while-peer-has-unacked-data", "replay", "duplicate-dropped", "inflight-lost:data", "inflight-lost:ack",
                               "paused-inside-replay", "write-behind-replay", "ack-not-sent", "op:park",
                               "late-listener", "connect:reentrant", "big-write"})
     return Result(lines, exp, viol, sorted(tags), nontrivial)
@@ -1066,7 +1109,7 @@ class AppGen:
         if r0 < 0.14:
             return ["pclose", self.x, rng.choice([0, 0, 1, 2])]
         if r0 < 0.28:
-            names = ["a", "é", NFD, JAMO] if self.x == "A" else ["a", "é", "g", "g", NFD, JAMO]
+            names = ["a", "é", NFD, JAMO, PAUSER] if self.x == "A" else ["a", "é", "g", "g", NFD, JAMO, PAUSER]
             greetings = [bytes(rng.randrange(256) for _ in range(rng.choice([0, 1, 3]))).hex()
                          for _ in range(rng.choice([0, 1, 1, 2]))]
             return ["connect", self.x, rng.choice(names), greetings, rng.random() < 0.4]
@@ -1074,7 +1117,7 @@ class AppGen:
             scid = self.next_scid
             self.next_scid += 2
             self.open.append(scid)
-            return ["write", self.x, "open", scid, rng.choice(["a", "a", "é", NFD, JAMO])]
+            return ["write", self.x, "open", scid, rng.choice(["a", "a", "é", NFD, JAMO, PAUSER, PAUSER])]
         scid = rng.choice(self.open)
         if rng.random() < 0.12:
             self.open.remove(scid)
@@ -1159,6 +1202,8 @@ def gen_realistic(rng, gens, big=0.0):
                 ops.append(["pause", rng.choice("AB")])
             elif r < 0.93:
                 ops.append(["resume", rng.choice("AB"), rng.choice([0, 1, 2])])
+            elif r < 0.96:
+                ops.append(["presume", rng.choice("AB")])
             else:
                 ops.append(rng.choice(late))
         first, second = rng.choice([("A", "B"), ("B", "A")])
@@ -1168,6 +1213,35 @@ def gen_realistic(rng, gens, big=0.0):
             ops.append(apps["A"].write() if r == 0 else ["deliver", "AB"[r - 1]])
         ops.append(["lose", second])
         some_writes(rng.randrange(0, 4), "AAAB")
+    return ops
+
+
+def gen_pause_burst(rng):
+    """a subchannel whose receiving application pauses it from inside dataReceived; DATA…DATA,CLOSE behind the record
+    that triggers the pause: written back-to-back on a live connection, or while down and replayed in one burst
+    (parked behind the KCM in world l2), with a loss in the middle; resumed at some point, or never"""
+    x, y = rng.choice([("A", "B"), ("B", "A")])        # x writes, y's application pauses
+    base = 101 if x == "A" else 102
+    ops = [["listen", y, PAUSER]] if rng.random() < 0.8 else []
+    burst = [["write", x, "open", base, PAUSER]]
+    burst += [["write", x, "data", base, bytes([i + 1]).hex()] for i in range(rng.choice([2, 3, 4]))]
+    if rng.random() < 0.85:
+        burst.append(["write", x, "close", base])
+    if rng.random() < 0.4:
+        burst += [["write", x, "open", base + 2, PAUSER], ["write", x, "data", base + 2, "99"]]
+    k = rng.randrange(0, len(burst) + 1)               # how much is written before the first connection
+    ops += burst[:k] + [["use", "A", 0]] + [["deliver", "B"]] * rng.choice([0, 0, 1, 2, 4]) + [["use", "B", 0]] + burst[k:]
+    for _ in range(rng.randrange(0, 8)):
+        ops.append(rng.choice([["deliver", y], ["deliver", y], ["deliver", x], ["presume", y]]))
+    if rng.random() < 0.5:
+        first, second = rng.choice([("A", "B"), ("B", "A")])
+        ops += [["lose", first], ["lose", second], ["write", x, "open", base + 4, PAUSER], ["write", x, "data", base + 4, "55"],
+                ["write", x, "data", base + 4, "56"], ["write", x, "close", base + 4], ["use", "A", 0]]
+        ops += [["deliver", "B"]] * rng.choice([0, 2, 5, 8]) + [["use", "B", 0]]
+        for _ in range(rng.randrange(0, 10)):
+            ops.append(rng.choice([["deliver", y], ["deliver", y], ["deliver", x], ["presume", y]]))
+    if rng.random() < 0.3:
+        ops.append(["listen", y, PAUSER])
     return ops
 
 
@@ -1312,6 +1386,19 @@ def corpus():
         out.append((w, [["listen", "B", NFD], ["listen", "A", JAMO], ["use", "A", 0], ["use", "B", 0], o("A", 101, NFD),
                         d("A", 101, "01"), o("B", 102, JAMO), d("B", 102, "02"), o("A", 103, JAMO),
                         ["connect", "B", NFD, ["aa"], True], c("A", 101)] + [["deliver", "B"], ["deliver", "A"]] * 5))
+    # 21. a receiving application that pauses its subchannel from inside dataReceived, with DATA, DATA, CLOSE right
+    #     behind the record that made it pause: back-to-back on a live connection, and as a burst replayed after a
+    #     reconnect (parked behind the KCM in world l2); resumed late, or only by the finale
+    for w in ("rec", "l2"):
+        out.append((w, [["listen", "B", PAUSER], ["use", "A", 0], ["use", "B", 0], o("A", 1, PAUSER), d("A", 1, "01"), d("A", 1, "02"),
+                        d("A", 1, "03"), c("A", 1)] + [["deliver", "B"]] * 5 + [["presume", "B"]]))
+        out.append((w, [["listen", "B", PAUSER], ["listen", "A", PAUSER], o("A", 1, PAUSER), d("A", 1, "01"), d("A", 1, "02"), c("A", 1),
+                        o("B", 2, PAUSER), d("B", 2, "b1"), ["use", "A", 0], ["deliver", "B"], ["deliver", "B"], ["deliver", "B"],
+                        ["deliver", "B"], ["use", "B", 0], ["deliver", "A"], ["deliver", "A"], d("B", 2, "b2"), c("B", 2),
+                        ["lose", "A"], ["lose", "B"]]))
+        out.append((w, [["use", "A", 0], ["use", "B", 0], o("A", 1, PAUSER), d("A", 1, "01"), ["deliver", "B"], ["deliver", "B"],
+                        ["listen", "B", PAUSER], d("A", 1, "02"), ["deliver", "B"], ["presume", "B"], d("A", 1, "03"), c("A", 1),
+                        ["deliver", "B"], ["deliver", "B"]]))
     # 9. adversarial: stop_using_connection without a connection
     out.append(("rec", [o("A", 1), ["lose", "A", "force"]]))
     return [dict(kind="sched", world=w, ops=ops) for w, ops in out]
@@ -1386,6 +1473,8 @@ def cases(rng, tier):
                                                                ["use", "A", 0]] + [["deliver", "B"]] * k + [["use", "B", 0]]))
     for _ in range(80 if tier == "quick" else 2500):
         out.append(dict(kind="sched", world=rng.choice(["rec", "l2"]), ops=gen_close_race(rng)))
+    for _ in range(80 if tier == "quick" else 2500):
+        out.append(dict(kind="sched", world=rng.choice(["rec", "l2"]), ops=gen_pause_burst(rng)))
     ex = exhaustive(rng)
     out += ex if tier == "thorough" else ex[:200]
     exp = exhaustive_parked(rng)
